@@ -361,15 +361,27 @@ class Gen:
             kind = r.random()
             if kind < 0.7:
                 elts = [self.num(env, d - 1) for _ in range(n)]
-                if r.random() < 0.12:
+                if r.random() < 0.15:
                     # some neighbouring elements are spread from an inner display (*(..), *[..]): the display still has n elements
                     # for python, its written element list is shorter (or as long, with one starred element standing for one)
-                    i = r.randrange(n)
-                    j = r.randint(i + 1, n)
+                    if n < 3:
+                        # (room for an element in front of a spread of two)
+                        elts += [self.num(env, d - 1) for _ in range(r.randint(3, 4) - n)]
+                        n = len(elts)
+                    if r.random() < 0.7:
+                        i = r.randint(0, n - 2)
+                        j = r.randint(i + 2, n)
+                    else:
+                        i = r.randrange(n)
+                        j = r.randint(i + 1, n)
                     inner = (ast.Tuple if r.random() < 0.5 else ast.List)(elts=elts[i:j], ctx=ast.Load())
                     elts = elts[:i] + [ast.Starred(value=inner, ctx=ast.Load())] + elts[j:]
                     self.feat.add("literal-with-starred-elements")
                 t = (ast.Tuple if kind < 0.4 else ast.List)(elts=elts, ctx=ast.Load())
+                if len(elts) < n and r.random() < 0.5:
+                    # (several elements came out of one spread: an index counted from the end lands elsewhere in the written list)
+                    self.feat.add("selector:from-the-end-of-a-display-with-a-spread")
+                    return sub(t, ast.UnaryOp(op=ast.USub(), operand=C(r.randint(1, n))))
                 return sub(t, self.selector(env, n, d))
             keys = r.sample(["a", "b", "c", "pt"], n)
             t = self.with_lookalike_keys(ast.Dict(keys=[C(k) for k in keys], values=[self.num(env, d - 1) for _ in keys]))
@@ -412,6 +424,15 @@ class Gen:
         """Index for a literal of length n; hostile selectors only when enabled (C18)."""
         r = self.r
         if r.random() >= self.hostile_sel:
+            k = r.random()
+            if k < 0.15:
+                # counted from the end, as python writes it (-k is a UnaryOp)
+                self.feat.add("selector:from-the-end")
+                return ast.UnaryOp(op=ast.USub(), operand=C(r.randint(1, n)))
+            if k < 0.2:
+                # zero under a minus sign / a truth value as index: position 0 (or 1)
+                self.feat.add("selector:minus-zero-or-bool")
+                return r.choice([ast.UnaryOp(op=ast.USub(), operand=C(0)), ast.UnaryOp(op=ast.USub(), operand=C(False)), C(False)] + ([C(True)] if n > 1 else []))
             return C(r.randint(0, n - 1))
         kind = r.choice(["oob", "neg-unary", "neg-const", "variable", "slice", "called-param"])
         self.feat.add("selector:" + kind)
